@@ -17,7 +17,7 @@ CLAIMED = {
         tech=TECH + "full solves under seeded schedules/clocks; partition oracle over the returned document"),
     "C03": dict(level="exploration", ref="DESIGN.md 5/C03",
         text="Same simulated full solves; arrival/departure, per-stop load, cumulative distance, per-tour and total statistic and place tags are recomputed from the problem, the matrices and the reported visiting order only (R-stat), +-1 time unit, exact integers elsewhere.",
-        note="Replay starts from the reported (truncated) departure: the one-unit tolerance is sound for any profile scale; with time-dependent matrices (legs priced at the time they are left, documented interpolation) the tolerance grows per leg with the slope of the travel time; which task/place an activity stands for is decided by consistency with the reported times; cost compared with uniform time cost (pragmatic format); times of tours with clustered stops or required breaks are not replayed (reported commutes of clustered stops are compared with the clustering profile's matrix in the direction walked).",
+        note="Replay starts from the reported (truncated) departure: the one-unit tolerance is sound for any profile scale; with time-dependent matrices (legs priced at the time they are left, documented interpolation) the tolerance grows per leg with the slope of the travel time; which task/place an activity stands for is decided by consistency with the reported times; cost compared with uniform time cost (pragmatic format); stops must be reported in visiting order on every tour (rule stop-order); times of tours with clustered stops or required breaks are not replayed (reported commutes of clustered stops are compared with the clustering profile's matrix in the direction walked).",
         tech=TECH + "full solves under seeded schedules/clocks; statistic/schedule recomputation oracle"),
 }
 
@@ -33,7 +33,7 @@ CLAIMED["C07"] = dict(level="fault_enumeration", ref="DESIGN.md 5/C07",
 
 CLAIMED["C05"] = dict(level="exploration", ref="DESIGN.md 5/C05",
     text="Same operator histories as C04; at every hand-over of a complete search step, and after every applied insertion inside the construction loop (hook H3, 1 case in 4), every cached quantity readable through hook H4 (activity schedules, per-tour and per-solution state entries rendered bit-exactly) is compared with a canonical recomputation on a stripped twin (caches discarded, route level acceptance, per-feature refresh, solution level acceptance to the fixpoint); the fitness vector must equal the twin's.",
-    note="Entries of types outside the closed render list are counted as opaque and not compared; per-tour values recognised as order-dependent derived values (they differ between the first recomputation pass and the fixpoint: work-balance tour values) are not compared; per-solution aggregates only at hand-over. Private state types of vrp-core are rendered through hook H4 (render_private_state); hand-overs of interrupted steps (interruption enumeration of C04) are compared as well.",
+    note="Entries of types outside the closed render list are counted as opaque and not compared; per-tour values recognised as order-dependent derived values (they differ between the first recomputation pass and the fixpoint: work-balance tour values) are not compared; per-solution aggregates only at hand-over. Private state types of vrp-core are rendered through hook H4 (render_private_state); hand-overs of interrupted steps (interruption enumeration of C04) are compared as well. Since round 4 only the statically identified work-balance keys are excused (the learned excuse for keys which differ between the recomputation passes is gone).",
     tech=TECH + "operator-history search with cache-vs-recomputation differential (stripped twin) at hand-overs and per applied insertion")
 
 CLAIMED["C15"] = dict(level="exploration", ref="DESIGN.md 5/C15",
@@ -54,7 +54,7 @@ NOT_APPLICABLE = {
 
 CLAIMED["C08"] = dict(level="exploration", ref="DESIGN.md 5/C08",
     text="Seeded operation histories (add, add_all batches, on_generation, select, ranked reads; 5..120 ops quick, ..600 thorough) on the three real populations (Greedy, Elitism, Rosomaxa) with generated sizes, selection sizes, rebalance memory and exploration ratio, under the simulated scheduler (Rosomaxa trains through the fork-join seam), worker RNG streams and hash order; after every operation the population is compared with a reference model that remembers every offered individual under an independent comparator: first ranked never worse than the best ever offered (singly or inside a batch), ranked() sorted, size bounds, select() a sub-multiset of what was offered and non-empty iff the population is, phases only forward.",
-    note="One case in ten is a crash-restart pair for the consequence clause: a (possibly clock-interrupted) simulated solve emits a document, it is read back through read_init_solution and seeds a second solve under an independent schedule/clock/hash/config seed; the best individual of the final population (judged before the solver's post-processing, rule population-lost-seeded) and the returned one (after it, rule restart-worse) must not be worse than the seeded one under Goal::total_order; the same deterministic execution is repeated through Solver::solve with 1..3 individuals requested from the strategy and must hand out the identical document; what the strategy hands out (1..9 individuals requested) never exceeds the size bound of the configured greedy/elitism population. Histories use the harness' total preorder over generated fitness vectors, so C09 is not assumed there; the restart verdict uses the repository's own goal on both sides. In 30 % of the restarts whose configuration admits two initial solutions the second solve gets two seeds, a poor one (every job unassigned) first.",
+    note="One case in ten is a crash-restart pair for the consequence clause: a (possibly clock-interrupted) simulated solve emits a document, it is read back through read_init_solution and seeds a second solve under an independent schedule/clock/hash/config seed; the best individual of the final population (judged before the solver's post-processing, rule population-lost-seeded) and the returned one (after it, rule restart-worse) must not be worse than the seeded one under Goal::total_order; the same deterministic execution is repeated through Solver::solve with 1..3 individuals requested from the strategy and must hand out the identical document; what the strategy hands out (1..9 individuals requested) never exceeds the size bound of the configured greedy/elitism population. Histories use the harness' total preorder over generated fitness vectors, so C09 is not assumed there; the restart verdict uses the repository's own goal on both sides. In 30 % of the restarts whose configuration admits two initial solutions (and whose problem has no user relations) the second solve gets two seeds, a poor one (every job unassigned) first; one stored document in four is edited the way a user releases a vehicle (one tour out, its jobs unassigned); user relations are generated in this family; 'not worse than the seed' is judged only for goals without a multi-objective layer (Pareto dominance with incomparable = equal is not transitive, DESIGN 9.12).",
     tech=TECH + "population operation-history search against a best-ever-offered reference model under seeded schedules, RNG streams and hash order")
 
 CLAIMED["C12"] = dict(level="fault_enumeration", ref="DESIGN.md 5/C12",
@@ -74,7 +74,7 @@ CLAIMED["C18"] = dict(level="exploration", ref="DESIGN.md 5/C18",
 
 CLAIMED["C19"] = dict(level="exploration", ref="DESIGN.md 5/C19",
     text="Seeded histories on the bare GSOM Network (harness Input/Storage types; store, store_batch, smooth, compact, generation ticks) and through the Rosomaxa population, with generated spread/distribution factors, node sizes, rebalance memory, learning rates and input streams (clustered, duplicated, constant, outliers, extreme finite magnitudes), under the simulated scheduler (training is a fork-join), worker RNG streams and hash order. After every operation: node key == node.coordinate and keys unique, weights finite and of input dimension, storage size within capacity, find(coordinate) returns that node, mse/unified distance finite, compact never grows the map nor leaves fewer than the minimum, phases only forward.",
-    note="One case in twelve feeds vrp-core's own Rosomaxa<Footprint, GoalContext, InsertionContext> with individuals made by the real recreates and ruins on generated problems (pragmatic documents; one in four composed through the public builders, half of those with a goal without transport feature), incl. what an interrupted construction or search step hands over: the fifteen weights of every offered individual (metrics.rs) must be finite and the map is checked through NetworkState. The other GSOM histories run on harness input types.",
+    note="One case in twelve feeds vrp-core's own Rosomaxa<Footprint, GoalContext, InsertionContext> with individuals made by the real recreates and ruins on generated problems (pragmatic documents; one in four composed through the public builders, half of those with a goal without transport feature), incl. what an interrupted construction or search step hands over: the fifteen weights of every offered individual (metrics.rs) must be finite and the map is checked through NetworkState. The other GSOM histories run on harness input types. One in eight of the public-builder problems is a fleet which carries nothing (capacity zero, jobs without demand).",
     tech=TECH + "GSOM operation-history search with per-step map well-formedness invariants under seeded schedules, RNG streams and hash order")
 
 PENDING = {}
